@@ -107,43 +107,44 @@ type frame struct {
 }
 
 type FCtx struct {
-	E            *Engine
-	U            *Universe
-	FI           *FuncInfo
-	C            *FuncContract
-	Prop         string
-	Obls         []*Obligation
-	entry        *State
-	frames       []*frame
-	counters     map[string]int
-	dropped      []string
-	assumed      map[string]bool
-	inlined      map[string]bool
-	notes        []string
-	guards       []string
-	noOverflow   bool
-	mayPanic     bool
-	loopOrd      int
-	retOrd       map[token.Pos]int
-	paramObs     []ObsVar
-	specDecl     map[string]bool
-	ghostOld     map[string]Val
-	fpMode       bool
-	inlineStack  []string
-	termination  []string
-	pureFacts    []string
-	seenDef      map[string]int  // names already defined/assigned (anchors of named asserts)
-	anchored     map[string]bool // named asserts that found their anchor
-	panicStates  []*State        // states at the points where a defer-recover function may panic
-	unfolding    bool            // inside unfoldOnce (no nested unfolding)
-	curSpecials  loopSpecials    // specials of the innermost range loop whose body is being executed
-	ctxSuffixOf  map[string]string
-	cacheParent  map[string]string
-	cacheN       int
-	recoverLit   *ast.FuncLit
-	inRecover    bool
-	implicitRecv map[ast.Expr]*types.Selection
-	curGhostSet  map[string]bool
+	E                 *Engine
+	U                 *Universe
+	FI                *FuncInfo
+	C                 *FuncContract
+	Prop              string
+	Obls              []*Obligation
+	entry             *State
+	frames            []*frame
+	counters          map[string]int
+	dropped           []string
+	assumed           map[string]bool
+	inlined           map[string]bool
+	notes             []string
+	guards            []string
+	noOverflow        bool
+	mayPanic          bool
+	mayPanicCallsOnly bool
+	loopOrd           int
+	retOrd            map[token.Pos]int
+	paramObs          []ObsVar
+	specDecl          map[string]bool
+	ghostOld          map[string]Val
+	fpMode            bool
+	inlineStack       []string
+	termination       []string
+	pureFacts         []string
+	seenDef           map[string]int  // names already defined/assigned (anchors of named asserts)
+	anchored          map[string]bool // named asserts that found their anchor
+	panicStates       []*State        // states at the points where a defer-recover function may panic
+	unfolding         bool            // inside unfoldOnce (no nested unfolding)
+	curSpecials       loopSpecials    // specials of the innermost range loop whose body is being executed
+	ctxSuffixOf       map[string]string
+	cacheParent       map[string]string
+	cacheN            int
+	recoverLit        *ast.FuncLit
+	inRecover         bool
+	implicitRecv      map[ast.Expr]*types.Selection
+	curGhostSet       map[string]bool
 }
 
 func (fc *FCtx) frame() *frame { return fc.frames[len(fc.frames)-1] }
@@ -190,7 +191,11 @@ func (fc *FCtx) obligeNamed(st *State, name, kind, goal, clause string, pos toke
 
 // panicCheck: obligation that cond holds (otherwise the Go runtime panics), unless may_panic.
 func (fc *FCtx) panicCheck(st *State, what, cond string, pos token.Pos) {
-	if fc.mayPanic {
+	// `//@ may_panic calls`: explicit panic statements, Must* helpers and callees flagged may_panic are allowed to
+	// panic, but the run-time checks of this function's own code (index, slice bounds, division, make, conversions,
+	// iterator use ...) remain obligations
+	callClass := what == "panic" || what == "callee" || strings.HasPrefix(what, "Must")
+	if fc.mayPanic && (!fc.mayPanicCallsOnly || callClass) {
 		if fc.recoverLit != nil && !fc.inRecover && cond != "true" {
 			// a defer-recover function: the panicking branch is one of the states the recover handler starts from
 			ps := st.clone()
